@@ -4,6 +4,7 @@ import Proofs.TieBasis
 import Proofs.DeclBasis
 import Proofs.TieLoopTail
 import Proofs.TieInnerStep
+import Proofs.SrcC19
 #print axioms PV.Proofs.C19.sample_bound
 #print axioms PV.Proofs.C19.clamp_contracts
 #print axioms PV.Proofs.C19.step_ratio_le_one
@@ -39,3 +40,5 @@ import Proofs.TieInnerStep
 #print axioms PV.Proofs.Tie.loop_tail_frame
 #print axioms PV.Proofs.Tie.declared_translated_innerstep
 #print axioms PV.Proofs.Tie.inner_step_tie
+#print axioms PV.Proofs.Source.C19_source_sample_bound
+#print axioms PV.Proofs.Source.C19_source_clamp_contracts
